@@ -20,6 +20,7 @@
 EXTENDS BlockLifecycle, TLC, Json, IOUtils, SequencesExt
 CONSTANTS N,            \* local blocks 1..N (1 = oldest)
           MaxCrashes, MaxFails,
+          MtLen,                 \* leg B (phase 2): MultiTSDB scenarios: all op sequences up to MtLen (0 = the fixed shapes only)
           CaseN, CaseCrashes, CasePre, CaseKinds  \* leg B: blocks / crash points / pre-states / kinds per generated case
 
 Blocks == 1..N
@@ -35,9 +36,12 @@ VARIABLES kind, uc, ooo,      \* the case: block kinds, upload-compacted, allow-
           bkt, file,          \* bucket; shipper file [present, uploaded = set of recorded block ids]
           pc, i, has, upl, uerrs,   \* Sync: program counter, current block, hasUploaded, meta.Uploaded, uploadErrs
           last,               \* result of the last finished Sync: "none" | "ok" | "err"
-          crashes, fails, everComplete
-vars == <<kind, uc, ooo, bkt, file, pc, i, has, upl, uerrs, last, crashes, fails, everComplete>>
+          crashes, fails, everComplete,
+          pruned,             \* the directory (tenant) was removed by MultiTSDB.Prune
+          localGone           \* local blocks deleted by the local TSDB retention
+vars == <<kind, uc, ooo, bkt, file, pc, i, has, upl, uerrs, last, crashes, fails, everComplete, pruned, localGone>>
 Const == UNCHANGED <<kind, uc, ooo>>
+LocalKeep == UNCHANGED <<pruned, localGone>>
 
 Local(b) == [b |-> b, level |-> IF kind[b] = "L2" THEN 2 ELSE 1, empty |-> kind[b] = "E", files |-> FilesOf(b)]
 Locals == { Local(b) : b \in Blocks }
@@ -49,43 +53,45 @@ Init == /\ kind \in [Blocks -> Kinds] /\ uc \in BOOLEAN /\ ooo \in BOOLEAN
         /\ file = [present |-> FALSE, uploaded |-> {}] /\ pc = "idle" /\ i = 0 /\ has = {} /\ upl = {} /\ uerrs = 0
         /\ last = "none" /\ crashes = 0 /\ fails = 0
         /\ everComplete = CompleteBlocks(bkt, ListedNow(bkt))
+        /\ pruned = FALSE /\ localGone = {}
 
 SyncStart == /\ pc = "idle"
              /\ has' = file.uploaded
              /\ upl' = {} /\ uerrs' = 0 /\ i' = 1 /\ pc' = "loop"
-             /\ UNCHANGED <<bkt, file, last, crashes, fails, everComplete>> /\ Const
+             /\ UNCHANGED <<bkt, file, last, crashes, fails, everComplete>> /\ Const /\ LocalKeep
 
 (* loop head for block i: the checks that need no bucket call *)
 Loop == /\ pc = "loop" /\ i <= N
-        /\ IF i \in has THEN upl' = upl \cup {i} /\ i' = i + 1 /\ pc' = "loop"
+        /\ IF pruned \/ i \in localGone THEN i' = i + 1 /\ pc' = "loop" /\ UNCHANGED upl     \* no longer on disk
+           ELSE IF i \in has THEN upl' = upl \cup {i} /\ i' = i + 1 /\ pc' = "loop"
            ELSE IF kind[i] = "E" \/ (kind[i] = "L2" /\ ~uc) THEN i' = i + 1 /\ pc' = "loop" /\ UNCHANGED upl
            ELSE pc' = "exists" /\ UNCHANGED <<i, upl>>
-        /\ UNCHANGED <<bkt, file, has, uerrs, last, crashes, fails, everComplete>> /\ Const
+        /\ UNCHANGED <<bkt, file, has, uerrs, last, crashes, fails, everComplete>> /\ Const /\ LocalKeep
 
 Exists == /\ pc = "exists"
           /\ IF MetaO(i) \in bkt THEN upl' = upl \cup {i} /\ i' = i + 1 /\ pc' = "loop"
              ELSE pc' = (IF kind[i] = "L2" /\ ~ooo THEN "overlap" ELSE "up_seg") /\ UNCHANGED <<i, upl>>
-          /\ UNCHANGED <<bkt, file, has, uerrs, last, crashes, fails, everComplete>> /\ Const
+          /\ UNCHANGED <<bkt, file, has, uerrs, last, crashes, fails, everComplete>> /\ Const /\ LocalKeep
 
 (* lazyOverlapChecker.sync: DownloadMeta of every block directory; a partial directory fails the sync *)
 PartialDirs(bk) == { b \in BlocksIn(bk) : MetaO(b) \notin bk }
 Overlap == /\ pc = "overlap"
            /\ IF PartialDirs(bkt) # {} THEN pc' = "idle" /\ last' = "err" ELSE pc' = "up_seg" /\ UNCHANGED last
-           /\ UNCHANGED <<bkt, file, i, has, upl, uerrs, crashes, fails, everComplete>> /\ Const
+           /\ UNCHANGED <<bkt, file, i, has, upl, uerrs, crashes, fails, everComplete>> /\ Const /\ LocalKeep
 
 Put(o) == /\ bkt' = { x \in bkt : ~(x.b = o.b /\ x.f = o.f) } \cup {o}
           /\ everComplete' = Seen({ x \in bkt : ~(x.b = o.b /\ x.f = o.f) } \cup {o})
 UpSeg == /\ pc = "up_seg" /\ Put(SegO(i)) /\ pc' = "up_idx"
-         /\ UNCHANGED <<file, i, has, upl, uerrs, last, crashes, fails>> /\ Const
+         /\ UNCHANGED <<file, i, has, upl, uerrs, last, crashes, fails>> /\ Const /\ LocalKeep
 UpIdx == /\ pc = "up_idx" /\ Put(IdxO(i)) /\ pc' = "up_meta"
-         /\ UNCHANGED <<file, i, has, upl, uerrs, last, crashes, fails>> /\ Const
+         /\ UNCHANGED <<file, i, has, upl, uerrs, last, crashes, fails>> /\ Const /\ LocalKeep
 UpMeta == /\ pc = "up_meta" /\ Put(MetaO(i)) /\ upl' = upl \cup {i} /\ i' = i + 1 /\ pc' = "loop"
-          /\ UNCHANGED <<file, has, uerrs, last, crashes, fails>> /\ Const
+          /\ UNCHANGED <<file, has, uerrs, last, crashes, fails>> /\ Const /\ LocalKeep
 
 (* after the loop: write the shipper file, return *)
 WriteFile == /\ pc = "loop" /\ i > N
              /\ file' = [present |-> TRUE, uploaded |-> upl] /\ last' = (IF uerrs > 0 THEN "err" ELSE "ok") /\ pc' = "idle"
-             /\ UNCHANGED <<bkt, i, has, upl, uerrs, crashes, fails, everComplete>> /\ Const
+             /\ UNCHANGED <<bkt, i, has, upl, uerrs, crashes, fails, everComplete>> /\ Const /\ LocalKeep
 
 (* a bucket call fails: Exists -> Sync returns the error at once; an upload call -> block.Upload fails *)
 Fail == /\ fails < MaxFails /\ pc \in {"exists", "up_seg", "up_idx", "up_meta"}
@@ -93,21 +99,37 @@ Fail == /\ fails < MaxFails /\ pc \in {"exists", "up_seg", "up_idx", "up_meta"}
         /\ IF pc = "exists" \/ ~ooo
              THEN pc' = "idle" /\ last' = "err" /\ UNCHANGED <<i, uerrs>>
              ELSE pc' = "loop" /\ i' = i + 1 /\ uerrs' = uerrs + 1 /\ UNCHANGED last
-        /\ UNCHANGED <<bkt, file, has, upl, crashes, everComplete>> /\ Const
+        /\ UNCHANGED <<bkt, file, has, upl, crashes, everComplete>> /\ Const /\ LocalKeep
 
 Crash == /\ crashes < MaxCrashes /\ pc # "idle"
          /\ crashes' = crashes + 1 /\ pc' = "idle" /\ last' = "none"
          /\ i' = 0 /\ has' = {} /\ upl' = {} /\ uerrs' = 0
-         /\ UNCHANGED <<bkt, file, fails, everComplete>> /\ Const
+         /\ UNCHANGED <<bkt, file, fails, everComplete>> /\ Const /\ LocalKeep
+
+(* ---- phase 2: removal of local data, guarded by the shipper file only ----                            *)
+(* MultiTSDB.Prune -> tenant.shouldBeMarkedInactive -> Shipper.AreAllBlocksUploaded: every block directory *)
+(* still on disk is listed in the shipper file (idleness and "head compaction ran" are abstracted into     *)
+(* the action being enabled at any time, also in the middle of a Sync: it only takes a read lock).         *)
+AllRecorded == \A b \in Blocks \ localGone : b \in file.uploaded
+Prune == /\ ~pruned /\ AllRecorded /\ pruned' = TRUE
+         /\ UNCHANGED <<bkt, file, pc, i, has, upl, uerrs, last, crashes, fails, everComplete, localGone>> /\ Const
+(* tenant.blocksToDelete: the TSDB retention may delete a local block only if the shipper file lists it *)
+LocalRetention == /\ ~pruned
+                  /\ \E b \in Blocks \ localGone : b \in file.uploaded /\ localGone' = localGone \cup {b}
+                  /\ UNCHANGED <<bkt, file, pc, i, has, upl, uerrs, last, crashes, fails, everComplete, pruned>> /\ Const
 
 Step == SyncStart \/ Loop \/ Exists \/ Overlap \/ UpSeg \/ UpIdx \/ UpMeta \/ WriteFile
-Next == Step \/ Fail \/ Crash
+Next == Step \/ Fail \/ Crash \/ Prune \/ LocalRetention
 Spec == Init /\ [][Next]_vars /\ WF_vars(Step)
 
 (* ---- C35 ---- *)
 C35_RecordedWereSeenComplete == C35_RecordedUnseen(file.uploaded, everComplete) = {}
 C35_SuccessfulSyncShippedAll ==
-    (last = "ok" /\ pc = "idle") => C35_NotShipped(Locals, uc, bkt, ListedNow(bkt), {}, {}) = {}
+    (last = "ok" /\ pc = "idle") => C35_NotShipped(Locals, uc, bkt, ListedNow(bkt), {}, {}) = {}    \* (blocks removed locally were shipped before, see below)
+(* phase 2: local data goes away only after it was shipped *)
+NonEmptyLocals == { x \in Locals : ~x.empty }
+C35_PrunedOnlyWhenShipped == pruned => C35_PrunedUnshipped({ x \in NonEmptyLocals : x.b \notin localGone }, bkt, ListedNow(bkt), {}, {}) = {}
+C35_LocalDeleteOnlyWhenShipped == C35_LocalGoneUnseen({ b \in localGone : kind[b] # "E" }, everComplete) = {}
 C28_Holds == C28_Incomplete(bkt, ListedNow(bkt)) = {}
 (* Once crashes and failures are used up a sync succeeds - unless the shipper is wedged: a partial  *)
 (* upload left in the bucket makes the overlap check of a compacted block fail in every sync.     *)
@@ -127,4 +149,16 @@ CaseSet == UNION { { [blocks |-> bs, uc |-> u, ooo |-> o, crashes |-> cr] : u \i
 (* a second crash point only for one-block cases, and early in the run (keeps the case count in budget) *)
 CaseOK(c) == \A k \in DOMAIN c.crashes : k = 1 \/ (c.crashes[k] <= 3 /\ Len(c.blocks) = 1)
 ASSUME ndJsonSerialize(CasesFile, SetToSeq({ c \in CaseSet : CaseOK(c) }))
+
+(* phase 2: scenarios for the real receive.MultiTSDB (file <cases>.mt): tenants[i] = blocks of tenant i; ops over    *)
+(* sync:k (SyncAllTenants with a bucket outage from the k-th mutating call), prune, append (newer samples + head      *)
+(* compaction, after which the local retention runs)                                                                *)
+MtTenants == {<<2, 1>>}      \* tenant layouts: blocks per tenant
+MtOps == {"sync:0", "sync:1", "sync:2", "sync:4", "prune", "append"}
+MtShapes == { <<"prune", s, "prune", "sync:0", "prune">> : s \in {"sync:1", "sync:2", "sync:4"} }
+            \cup { <<s, "append", "prune", "sync:0", "append", "prune">> : s \in {"sync:0", "sync:2"} }
+MtAll == UNION { [1..n -> MtOps] : n \in 1..MtLen }
+MtCaseSet == { [mt |-> TRUE, tenants |-> tn, ooo |-> o, ops |-> ops] :
+                 tn \in MtTenants, o \in {FALSE}, ops \in (IF MtLen = 0 THEN MtShapes ELSE MtShapes \cup MtAll) }
+ASSUME ndJsonSerialize(CasesFile \o ".mt", SetToSeq(MtCaseSet))
 =============================================================================
